@@ -174,6 +174,16 @@ class FuseSuccessiveReluClip(FuseSuccessiveClipRelu):
     def pattern(self, op, x):
         return op.Relu(op.Clip(x, _allow_other_inputs=True, _outputs=["out_first_clip"]))
 
+    def compute_clip_min_max(self, first_clip_node: ir.Node, _):
+        # Relu is applied last: a negative upper bound is raised to 0 as well.
+        min_clip, max_clip, dtype = self.extract_min_max(first_clip_node)
+        if min_clip is None:
+            min_clip = 0
+        min_clip = ir.tensor(np.array(np.maximum(0.0, min_clip), dtype=dtype))
+        if max_clip is not None:
+            max_clip = ir.tensor(np.array(np.maximum(0.0, max_clip), dtype=dtype))
+        return min_clip, max_clip
+
 
 successive_relu_rule = FuseSuccessiveRelu().rule()
 successive_clip_rule = FuseSuccessiveClip().rule()
